@@ -233,7 +233,7 @@ Proof.
   intros [Hrot [Hts [Hlink _]]] Q Hn Hi.
   unfold initialize. rewrite Hrot. unfold init_naming, index_for_rcurrent, with_listing.
   rewrite tick_quiet by assumption.
-  unfold get_highest_index, list_log_gz. rewrite existing_rot_empty by assumption. cbn [map_opt max_opt bind].
+  unfold get_highest_index, list_log_gz. rewrite existing_rot_empty by assumption. cbn [filter_map_opt max_opt bind].
   (* the rename of a current file that does not exist *)
   assert (E0 : (if negb (c_append c)
                 then let '(r, w1) := p_rename w (name_of c w (Some cur_infix)) (name_of c w (Some (number_infix 0))) in
